@@ -12,6 +12,10 @@
  *   -DVC_FN=<sse2_composite_...>   -DVC_SFMT / -DVC_MFMT / -DVC_DFMT   format names of spec_format.h (8/16/32 bpp)
  *   -DVC_SOLID   source solid (stub _pixman_image_get_solid returns in_solid for the source image)
  *   -DVC_MSOLID  mask solid   (the stub returns in_msolid for the mask image; spec: unified mask = its alpha)
+ *   -DVC_PIXBUF  "pixbuf" request (pixman_image_composite32: source x8b8g8r8 and mask a8r8g8b8 share the SAME pixel
+ *                buffer, i.e. a non-premultiplied a8b8g8r8 pixbuf): the mask image is a second header on the source row and
+ *                the spec is the ordinary one for that request, OVER with a unified mask,
+ *                s = WIDEN_x8b8g8r8 (p), m = WIDEN_a8r8g8b8 (p) for the same raw pixel p  (VC_SFMT = x8b8g8r8, VC_MODE = 1)
  *   -DVC_OP / -DVC_MODE / -DVC_CH (0..3 | 4 frame)   -DVC_W  -DVC_DX -DVC_SX -DVC_MX  -DVC_ROW (pixels per row)
  *
  * Alignment: CBMC places every object at offset 0 of its own address space and (uintptr_t) p & 15 is the low bits of
@@ -102,9 +106,15 @@ static void vc_bits (pixman_image_t *im, void *bits, int words, pixman_format_co
 
 void harness (void)
 {
+#ifdef VC_SLICED   /* query run with --slice-formula: see c02.h */
+    VC_IN_ARRAY_ASSIGNED (vh_u32, in_src, VC_ROW);
+    VC_IN_ARRAY_ASSIGNED (vh_u32, in_msk, VC_ROW);
+    VC_IN_ARRAY_ASSIGNED (vh_u32, in_dst, VC_ROW);
+#else
     VC_IN_ARRAY (vh_u32, in_src, VC_ROW);
     VC_IN_ARRAY (vh_u32, in_msk, VC_ROW);
     VC_IN_ARRAY (vh_u32, in_dst, VC_ROW);
+#endif
     VH_IN (vh_u32, in_solid);
     VH_IN (vh_u32, in_msolid);
 #ifndef VC_K
@@ -130,14 +140,22 @@ void harness (void)
     }
     vc_solid = in_solid; vc_msolid = in_msolid;
     vc_bits (&vc_src, sbuf, (int) (sizeof sbuf / 4), VC_CODE (VC_SFMT));
+#ifdef VC_PIXBUF
+    vc_bits (&vc_msk, sbuf, (int) (sizeof sbuf / 4), PIXMAN_a8r8g8b8);
+#else
     vc_bits (&vc_msk, mbuf, (int) (sizeof mbuf / 4), VC_CODE (VC_MFMT));
+#endif
     vc_bits (&vc_dst, dbuf, (int) (sizeof dbuf / 4), VC_CODE (VC_DFMT));
     memset (&info, 0, sizeof info);
     info.op = VC_PIXOP;
     info.src_image = &vc_src;
     info.mask_image = VC_MODE ? &vc_msk : (pixman_image_t *) 0;
     info.dest_image = &vc_dst;
+#ifdef VC_PIXBUF
+    info.src_x = VC_SX; info.mask_x = VC_SX; info.dest_x = VC_DX;
+#else
     info.src_x = VC_SX; info.mask_x = VC_MX; info.dest_x = VC_DX;
+#endif
     info.width = VC_W;
     info.height = 1;
 
@@ -164,6 +182,9 @@ void harness (void)
 #endif
 #ifdef VC_MSOLID
     m32 = in_msolid;
+#elif defined (VC_PIXBUF)
+    r = (uint32_t) in_src[VC_SX + VC_KK];
+    m32 = SF_WIDEN_PIX (a8r8g8b8, r);
 #else
     r = (VC_TYPE (VC_MFMT)) in_msk[VC_MX + VC_KK];
     m32 = SF_WIDEN_PIX (VC_MFMT, r);
